@@ -47,6 +47,9 @@ pub enum Shape {
 pub enum Op {
     /// commit (phase 1 only)
     C,
+    /// commit again the very same opening as the most recent commitment (same value, same
+    /// blinding, hence the same point); plain commit if there is none yet
+    CD,
     /// allocate
     A,
     /// allocate_multiplier
@@ -114,6 +117,7 @@ impl Op {
         }
         match self {
             Op::C => "C".into(),
+            Op::CD => "Cd".into(),
             Op::A => "A".into(),
             Op::M => "M".into(),
             Op::AN => "An".into(),
@@ -147,6 +151,7 @@ impl Op {
             ('M', 1) => Some(Op::M),
             ('T', 1) => Some(Op::T),
             ('Z', 1) => Some(Op::Z),
+            ('C', 2) if cs[1] == 'd' => Some(Op::CD),
             ('A', 2) if cs[1] == 'n' => Some(Op::AN),
             ('M', 2) if cs[1] == 'n' => Some(Op::MN),
             ('K', 2) => Some(Op::K(sh(cs[1])?)),
@@ -228,7 +233,7 @@ impl Program {
     pub fn stats(&self) -> (usize, usize, usize, usize) {
         fn step(op: &Op, pending: &mut bool, w: &mut usize, k: &mut usize, g: &mut usize) {
             match op {
-                Op::C => *w += 1,
+                Op::C | Op::CD => *w += 1,
                 Op::A | Op::AN => {
                     *w += 1;
                     if *pending {
@@ -699,6 +704,23 @@ pub fn exec_op<F: PrimeField>(op: Op, ctx: &mut Ctx<F>, side: &mut dyn Side<F>) 
         Op::C => {
             let (h, a) = ctx.next_witness();
             let blind = alphabet::rho::<F>(ctx.seed, &format!("blind{}", ctx.refcs.honest.v.len()));
+            let e = ctx.refcs.commit(h, a, blind);
+            let v = side.commit(a, blind);
+            handles.push(v);
+            expected.push(e);
+            ctx.vars.push(v);
+            ctx.committed.push(v);
+        }
+        Op::CD => {
+            let m = ctx.refcs.honest.v.len();
+            let (h, a, blind) = if m == 0 {
+                let (h, a) = ctx.next_witness();
+                (h, a, alphabet::rho::<F>(ctx.seed, "blind0"))
+            } else {
+                ctx.wcount += 1;
+                ctx.witness_sites += 1;
+                (ctx.refcs.honest.v[m - 1], ctx.refcs.actual.v[m - 1], ctx.refcs.blind[m - 1])
+            };
             let e = ctx.refcs.commit(h, a, blind);
             let v = side.commit(a, blind);
             handles.push(v);
